@@ -84,6 +84,7 @@ func checkC11(o options) int {
 	census := asList(race.instrument["census"])
 	logf("built: race and plain instrumented harness (%v sites); census hits: %d", race.instrument["sites"], len(census))
 	noIso := false
+	noLiveness := false
 	concurrencyHits := 0
 	for _, h := range census {
 		m, _ := h.(map[string]interface{})
@@ -97,6 +98,19 @@ func checkC11(o options) int {
 		if m["class"] == "nondeterminism" {
 			noIso = true
 		}
+		if w, _ := m["what"].(string); strings.HasPrefix(w, "sync.") && (strings.Contains(w, "not at statement level") || strings.Contains(w, "method value")) {
+			// locks taken or released where the instrumenter's Lock()/Unlock()
+			// brackets cannot follow: the evidence the liveness verdict rests on
+			// (a bracket left open) is not reliable on this tree; a blocked call
+			// stays machinery trouble (exit 2)
+			noLiveness = true
+		}
+	}
+	if noLiveness {
+		os.Setenv("VERIF_NO_LIVENESS", "1") // inherited by every child
+		logf("census: locks used beyond statement-level Lock()/Unlock(): liveness verdict off")
+	} else {
+		os.Unsetenv("VERIF_NO_LIVENESS")
 	}
 	rdir := filepath.Join(scratch, "replays")
 	os.MkdirAll(rdir, 0o755)
